@@ -4,11 +4,15 @@ import (
 	"fmt"
 	"regexp"
 	"sort"
+	"strconv"
 	"strings"
 
 	"github.com/hashicorp/hcl-lang/lang"
+	"github.com/hashicorp/hcl/v2"
+	"github.com/hashicorp/hcl/v2/hclsyntax"
 
 	"verifharness/internal/core"
+	"verifharness/internal/model"
 	"verifharness/internal/postab"
 	"verifharness/internal/runner"
 )
@@ -326,4 +330,277 @@ func oracleTokens(c *caseCtx, q core.Query, r core.Result) {
 			c.Rep.Sample(map[string]interface{}{"source": c.Spec.Recipe.String(), "file": q.File, "mutation": c.Spec.Mut.String(), "tokens": len(toks), "types": ts})
 		}
 	}
+}
+
+// ---------------------------------------------------------------- C12 element-specific half
+
+// oracleHoverElements: on an attribute name, block type or block label the
+// hover names that element, carries the description the (model's) effective
+// schema gives it and has the whole attribute / the type keyword / the label
+// as range; inside a value the range stays within the attribute's expression.
+func oracleHoverElements(c *caseCtx, q core.Query, r core.Result) {
+	if q.Kind != core.QHover || r.Panic != nil {
+		return
+	}
+	pc := c.Env.PathCtx[q.Path]
+	if pc == nil || pc.Schema == nil || pc.Files[q.File] == nil {
+		return
+	}
+	body, ok := pc.Files[q.File].Body.(*hclsyntax.Body)
+	if !ok {
+		return
+	}
+	src := pc.Files[q.File].Bytes
+	cls := model.Classify(src, body, model.EffRoot(pc.Schema), q.Pos.Byte, "", false, false)
+	if cls.InDyn {
+		return
+	}
+	hd, _ := r.Value.(*lang.HoverData)
+	viol := func(sig, what, exp string) {
+		obs := "no hover"
+		if hd != nil {
+			obs = fmtRange(hd.Range) + " " + trunc(hd.Content.Value, 300)
+		}
+		c.Rep.Violation(c.witness(sig, what, q, func(w *runner.Witness) { w.Expected, w.Observed = exp, obs }))
+	}
+	contains := func(s string) bool { return s == "" || (hd != nil && strings.Contains(hd.Content.Value, s)) }
+	switch cls.Kind {
+	case "attr-name":
+		as, how := cls.Eff.AttrSchema(cls.Attr.Name)
+		if !cls.Eff.Known {
+			return
+		}
+		if as == nil {
+			if hd != nil {
+				viol("HOVER-ELEMENT hover-on-unknown-attribute", fmt.Sprintf("hover on the name of attribute %q which the effective schema does not know", cls.Attr.Name), "nothing")
+			}
+			return
+		}
+		if hd == nil {
+			viol("HOVER-ELEMENT missing on=attribute-name how="+how, fmt.Sprintf("no hover on the name of the known attribute %q", cls.Attr.Name), cls.Attr.Name)
+			return
+		}
+		if hd.Range != cls.Attr.SrcRange {
+			viol("HOVER-ELEMENT wrong-range on=attribute-name", fmt.Sprintf("hover on attribute name %q has range %s, the whole attribute is %s", cls.Attr.Name, fmtRange(hd.Range), fmtRange(cls.Attr.SrcRange)), fmtRange(cls.Attr.SrcRange))
+		}
+		if !contains(cls.Attr.Name) {
+			viol("HOVER-ELEMENT content-does-not-name-element on=attribute-name", fmt.Sprintf("hover content does not name attribute %q", cls.Attr.Name), cls.Attr.Name)
+		}
+		if how == "attr" && !contains(as.Description.Value) {
+			viol("HOVER-ELEMENT wrong-description on=attribute-name lookup="+cls.Eff.Lookup.String(), fmt.Sprintf("hover on %q does not carry the description of the effective schema", cls.Attr.Name), as.Description.Value)
+		}
+		c.Rep.NonTrivial("element|attribute-name|" + how + "|" + cls.Eff.Lookup.String() + "|" + c.Spec.Mut.Kind)
+	case "block-type":
+		if hd == nil {
+			viol("HOVER-ELEMENT missing on=block-type", fmt.Sprintf("no hover on the type of the known block %q", cls.Block.Type), cls.Block.Type)
+			return
+		}
+		if hd.Range != cls.Block.TypeRange {
+			viol("HOVER-ELEMENT wrong-range on=block-type", fmt.Sprintf("hover on block type %q has range %s, the type keyword is %s", cls.Block.Type, fmtRange(hd.Range), fmtRange(cls.Block.TypeRange)), fmtRange(cls.Block.TypeRange))
+		}
+		if !contains(cls.Block.Type) || !contains(cls.BS.Description.Value) {
+			viol("HOVER-ELEMENT content on=block-type", fmt.Sprintf("hover on block type %q does not name it / carry its description", cls.Block.Type), cls.Block.Type+" "+cls.BS.Description.Value)
+		}
+		c.Rep.NonTrivial("element|block-type|" + c.Spec.Mut.Kind)
+	case "label":
+		if cls.Label >= len(cls.BS.Labels) || cls.Label >= len(cls.Block.Labels) {
+			return
+		}
+		lr := cls.Block.LabelRanges[cls.Label]
+		if q.Pos.Byte >= lr.End.Byte {
+			return
+		}
+		if hd == nil {
+			viol("HOVER-ELEMENT missing on=label", fmt.Sprintf("no hover on label #%d of block %q", cls.Label, cls.Block.Type), cls.Block.Labels[cls.Label])
+			return
+		}
+		if hd.Range != lr {
+			viol("HOVER-ELEMENT wrong-range on=label", fmt.Sprintf("hover on label #%d of %q has range %s, the label is %s", cls.Label, cls.Block.Type, fmtRange(hd.Range), fmtRange(lr)), fmtRange(lr))
+		}
+		quoted := strconv.Quote(cls.Block.Labels[cls.Label])
+		if !contains(cls.Block.Labels[cls.Label]) && !contains(quoted[1:len(quoted)-1]) {
+			viol("HOVER-ELEMENT content-does-not-name-element on=label", "hover content does not name the label value", cls.Block.Labels[cls.Label])
+		}
+		ls := cls.BS.Labels[cls.Label]
+		eff := model.Effective(cls.Block, cls.BS, cls.Eff)
+		if ls.IsDepKey && eff.Dep != nil {
+			// description of the selected dependent body (or, failing that, of the label)
+			want := eff.Dep.Description.Value
+			if want == "" {
+				want = ls.Description.Value
+			}
+			// a second-level body may replace the first; accept either description
+			if !contains(want) {
+				alt := false
+				for _, db := range cls.BS.DependentBody {
+					if db.Description.Value != "" && contains(db.Description.Value) {
+						alt = true
+					}
+				}
+				if !alt {
+					viol("HOVER-ELEMENT wrong-description on=dependent-label lookup="+eff.Lookup.String(), "hover on a dependency-key label does not carry the description of the selected dependent body", want)
+				}
+			}
+		} else if !ls.IsDepKey && !contains(ls.Description.Value) {
+			viol("HOVER-ELEMENT wrong-description on=label", "hover on a label does not carry the label's description", ls.Description.Value)
+		}
+		c.Rep.NonTrivial(fmt.Sprintf("element|label|dep=%t|%s|%s", ls.IsDepKey, eff.Lookup, c.Spec.Mut.Kind))
+	case "value":
+		if hd != nil && cls.Attr != nil && q.Pos.Byte >= cls.Attr.Expr.Range().Start.Byte && q.Pos.Byte < cls.Attr.Expr.Range().End.Byte {
+			er := cls.Attr.Expr.Range()
+			if !(hd.Range.Start.Byte >= er.Start.Byte && hd.Range.End.Byte <= er.End.Byte) && hd.Range.Filename == er.Filename {
+				viol("HOVER-ELEMENT value-hover-range-outside-expression", fmt.Sprintf("hover inside the value of %q has range %s outside the expression %s", cls.Attr.Name, fmtRange(hd.Range), fmtRange(er)), fmtRange(er))
+			}
+			c.Rep.NonTrivial("element|value|" + exprKind(cls.Attr.Expr) + "|" + c.Spec.Mut.Kind)
+		}
+	}
+}
+
+// ---------------------------------------------------------------- C13 exactness of structure tokens
+
+type structTok struct {
+	typ  lang.SemanticTokenType
+	rng  hcl.Range
+	mods string
+}
+
+type tokModel struct {
+	want      []structTok
+	exprZones []hcl.Range // expressions of schema-known attributes: value tokens may only lie here
+	dynZones  []hcl.Range
+}
+
+func modsString(ms []lang.SemanticTokenModifier) string {
+	out := make([]string, len(ms))
+	for i, m := range ms {
+		out[i] = string(m)
+	}
+	return strings.Join(out, ",")
+}
+
+func (m *tokModel) body(body *hclsyntax.Body, e *model.Eff, parent []lang.SemanticTokenModifier) {
+	if !e.Known {
+		return
+	}
+	for name, attr := range body.Attributes {
+		as, _ := e.AttrSchema(name)
+		if as == nil {
+			continue
+		}
+		mods := append(append([]lang.SemanticTokenModifier{}, parent...), as.SemanticTokenModifiers...)
+		m.want = append(m.want, structTok{lang.TokenAttrName, attr.NameRange, modsString(mods)})
+		m.exprZones = append(m.exprZones, attr.Expr.Range())
+	}
+	for _, b := range body.Blocks {
+		bs := e.Blocks[b.Type]
+		if b.Type == "dynamic" && bs == nil && e.DynAncestor {
+			m.dynZones = append(m.dynZones, b.Range())
+			continue
+		}
+		if bs == nil {
+			continue
+		}
+		bmods := append(append([]lang.SemanticTokenModifier{}, parent...), bs.SemanticTokenModifiers...)
+		m.want = append(m.want, structTok{lang.TokenBlockType, b.TypeRange, modsString(bmods)})
+		for i, lr := range b.LabelRanges {
+			if i >= len(bs.Labels) {
+				continue // surplus label: no token
+			}
+			lmods := append(append([]lang.SemanticTokenModifier{}, bmods...), bs.Labels[i].SemanticTokenModifiers...)
+			m.want = append(m.want, structTok{lang.TokenBlockLabel, lr, modsString(lmods)})
+		}
+		if b.Body == nil {
+			continue
+		}
+		ne := model.Effective(b, bs, e)
+		if bs.Body == nil && ne.Dep == nil {
+			continue
+		}
+		m.body(b.Body, ne, bmods)
+	}
+}
+
+// oracleTokenStructure: exactly the schema-known attribute names, block types
+// and labels carry structure tokens (with the modifiers of the element and of
+// all enclosing blocks); value tokens only inside values of known attributes.
+func oracleTokenStructure(c *caseCtx, q core.Query, r core.Result) {
+	if q.Kind != core.QSemTokens || r.Panic != nil || r.Err != nil {
+		return
+	}
+	toks, ok := r.Value.([]lang.SemanticToken)
+	if !ok {
+		return
+	}
+	pc := c.Env.PathCtx[q.Path]
+	if pc == nil || pc.Schema == nil || pc.Files[q.File] == nil {
+		return
+	}
+	body, ok := pc.Files[q.File].Body.(*hclsyntax.Body)
+	if !ok {
+		return
+	}
+	// parser recovery yields half blocks and unreliable expression extents:
+	// exactness is decided on files the parser accepts without errors
+	if _, diags := hclsyntax.ParseConfig(pc.Files[q.File].Bytes, q.File, hcl.InitialPos); diags.HasErrors() {
+		c.Rep.Count("structure_skipped_files_with_parse_errors", 1)
+		return
+	}
+	m := &tokModel{}
+	m.body(body, model.EffRoot(pc.Schema), nil)
+	inDyn := func(rg hcl.Range) bool {
+		for _, d := range m.dynZones {
+			if rangeWithin(rg, d) {
+				return true
+			}
+		}
+		return false
+	}
+	want := map[string]structTok{}
+	for _, w := range m.want {
+		want[string(w.typ)+"|"+fmtRange(w.rng)] = w
+	}
+	seen := map[string]bool{}
+	for _, t := range toks {
+		if inDyn(t.Range) {
+			continue
+		}
+		switch t.Type {
+		case lang.TokenAttrName, lang.TokenBlockType, lang.TokenBlockLabel:
+			key := string(t.Type) + "|" + fmtRange(t.Range)
+			w, ok := want[key]
+			if !ok {
+				// type declarations emit attribute-name tokens for object({ a = ... }) keys: those lie inside a value
+				inValue := false
+				for _, z := range m.exprZones {
+					if rangeWithin(t.Range, z) {
+						inValue = true
+					}
+				}
+				if !inValue {
+					c.Rep.Violation(c.witness("TOKEN-STRUCTURE extra type="+string(t.Type), fmt.Sprintf("structure token %s at %s marks something the effective schema does not know", t.Type, fmtRange(t.Range)), q, nil))
+				}
+				continue
+			}
+			seen[key] = true
+			if got := modsString(t.Modifiers); got != w.mods {
+				c.Rep.Violation(c.witness("TOKEN-STRUCTURE wrong-modifiers type="+string(t.Type), fmt.Sprintf("token %s at %s has modifiers [%s], the element and its enclosing blocks give [%s]", t.Type, fmtRange(t.Range), got, w.mods), q, nil))
+			}
+		default:
+			ok := false
+			for _, z := range m.exprZones {
+				if rangeWithin(t.Range, z) {
+					ok = true
+				}
+			}
+			if !ok {
+				c.Rep.Violation(c.witness("TOKEN-STRUCTURE value-token-outside-known-value type="+string(t.Type), fmt.Sprintf("token %s at %s does not lie inside the value of a schema-known attribute", t.Type, fmtRange(t.Range)), q, nil))
+			}
+		}
+	}
+	for key, w := range want {
+		if !seen[key] && !inDyn(w.rng) {
+			c.Rep.Violation(c.witness("TOKEN-STRUCTURE missing type="+string(w.typ), fmt.Sprintf("the schema-known element at %s has no %s token", fmtRange(w.rng), w.typ), q, nil))
+		}
+	}
+	c.Rep.Count("structure_tokens_expected", int64(len(m.want)))
 }
